@@ -103,6 +103,21 @@ add("C09",
     "Thresholds compared only for targets whose materialised threshold lies within the range of "
     "the relevant scored samples (as the property states); tolerance 1e-9*range, 1e-12 for AUC.")
 
+add("C10",
+    "property-based testing: Hypothesis @given for shapes / elementwise-equals-scalar / aliases, "
+    "and a Hypothesis rule-based state machine over call histories with bit-identity, memo and "
+    "fresh-clone invariants (histories replayed by a plain interpreter)",
+    "Exploration: every generated array shape (0-d..3-d, size-0 and size-1 axes) gives results of "
+    "the documented shape whose elements equal the scalar calls; scalar inputs give plain scalars; "
+    "over generated histories of up to 30 public calls (incl. random bootstrap calls) on one "
+    "Scores/GroupScores object, object state, constructor inputs and argument arrays stay "
+    "bit-identical and every result equals both its earlier occurrence and the same query on a "
+    "freshly built clone.",
+    "Histories are generated by Hypothesis' stateful engine but executed at teardown by the same "
+    "interpreter that replays JSON histories; bootstrap_ci is exercised only with non-empty "
+    "metric shapes; single_pass+by_group only where every (group, class) stratum is non-empty.",
+    engine="hypothesis-stateful")
+
 NOT_YET = {}
 
 
@@ -146,6 +161,11 @@ def main():
             add_only=True,
         ),
         engines=[
+            dict(name="hypothesis-stateful", path="vf/props/c10.py",
+                 serves_properties=["C10", "C11", "C12"],
+                 kind_free_text="Hypothesis RuleBasedStateMachine (run_state_machine_as_test with a "
+                                "seeded machine class); rules record a JSON history that a plain "
+                                "interpreter executes with invariants after every step"),
             dict(name="hypothesis+enumeration", path="vf/",
                  serves_properties=sorted(CHECKS),
                  kind_free_text="Hypothesis 6.168 @given / rule-based state machines over "
